@@ -419,13 +419,105 @@ def path_to_leaf(node, lid, acc=()):
     return None
 
 
+def fixed_not_ragged(w, atomic=()):
+    """Walk the widgets rendered with size (): every Pile among them gives all its fixed items the Pile's own width."""
+    import urwid
+    S = spy_classes()
+    if isinstance(w, S["SpyBase"]) or any(w is a for a in atomic):
+        return True
+    if isinstance(w, urwid.AttrMap):
+        return fixed_not_ragged(w.original_widget, atomic)
+    if isinstance(w, urwid.Pile):
+        try:
+            _, _, args = w.get_rows_sizes((), focus=True)
+            width = w.pack((), True)[0]
+        except Exception:  # noqa: BLE001
+            return True              # not renderable with (): judged by the rendering itself
+        for (c, _), a in zip(w.contents, args):
+            if a == ():
+                if c.pack((), True)[0] != width or not fixed_not_ragged(c, atomic):
+                    return False
+            elif not fits_w(c, a, atomic):
+                return False
+        return True
+    if isinstance(w, urwid.Columns):
+        try:
+            _, _, args = w.get_column_sizes((), focus=True)
+        except Exception:  # noqa: BLE001
+            return True
+        return all(fixed_not_ragged(c, atomic) for (c, _), a in zip(w.contents, args) if a == ())
+    if isinstance(w, urwid.Padding):
+        if w._width_type == urwid.WHSettings.GIVEN:
+            return True
+        return fixed_not_ragged(w.original_widget, atomic)
+    return True
+
+
+def ragged_fixed_pile(w, size):
+    """Some Pile of the tree is rendered with size () and has a fixed item narrower than the Pile: Pile.render(()) does
+    not pad it, the canvas is ragged, and once it is overlaid / joined the drawn positions are not what any of the four
+    methods computes (reported; such cases are outside the model: no correspondence, and they never count as fitting)."""
+    import urwid
+    try:
+        if isinstance(w, urwid.LineBox):
+            return ragged_fixed_pile(w._w, size)
+        if isinstance(w, urwid.AttrMap):
+            return ragged_fixed_pile(w.original_widget, size)
+        if isinstance(w, urwid.BoxAdapter):
+            return ragged_fixed_pile(w.original_widget, (size[0], w.height)) if size else False
+        if isinstance(w, urwid.Pile):
+            _, _, args = w.get_rows_sizes(size, focus=True)
+            if not size:
+                width = w.pack((), True)[0]
+                if any(a == () and c.pack((), True)[0] != width for (c, _), a in zip(w.contents, args)):
+                    return True
+            return any(ragged_fixed_pile(c, a) for (c, _), a in zip(w.contents, args))
+        if isinstance(w, urwid.Columns):
+            _, _, args = w.get_column_sizes(size, focus=True)
+            return any(ragged_fixed_pile(c, a) for (c, _), a in zip(w.contents, args))
+        if isinstance(w, urwid.Padding):
+            if size:
+                left, right = w.padding_values(size, True)
+                return ragged_fixed_pile(w.original_widget, (size[0] - left - right,) + tuple(size[1:]))
+            if w._width_type == urwid.WHSettings.GIVEN:
+                return ragged_fixed_pile(w.original_widget, (w._width_amount,))
+            return ragged_fixed_pile(w.original_widget, ())
+        if isinstance(w, urwid.Filler):
+            if not size:
+                return False
+            if w.height_type == urwid.WHSettings.PACK:
+                return ragged_fixed_pile(w.original_widget, (size[0],))
+            maxrow = w.pack(size, True)[1]
+            top, bottom = w.filler_values(size, True)
+            return ragged_fixed_pile(w.original_widget, (size[0], maxrow - top - bottom))
+        if isinstance(w, urwid.Frame):
+            if len(size) != 2:
+                return False
+            (ht, ft), _ = w.frame_top_bottom(size, True)
+            parts = [(w.body, (size[0], size[1] - ht - ft))]
+            parts += [(p, (size[0],)) for p in (w.header, w.footer) if p is not None]
+            return any(ragged_fixed_pile(p, sz) for p, sz in parts)
+        if isinstance(w, urwid.Overlay):
+            if len(size) != 2:
+                return False
+            left, right, top, bottom = w.calculate_padding_filler(size, True)
+            return (ragged_fixed_pile(w.top_w, w.top_w_size(size, left, right, top, bottom))
+                    or ragged_fixed_pile(w.bottom_w, size))
+    except Exception:  # noqa: BLE001
+        return False
+    return False
+
+
 def fits_w(w, size, atomic=()):
     """No child hidden or clipped for lack of space: walk the urwid tree top-down with the sizes the
     containers' own helper methods hand to their children (the precondition of the property)."""
     import urwid
     S = spy_classes()
     if not size:
-        return True          # a fixed widget decides its own size; whether its leaves are fully drawn is read off the canvas
+        # a fixed widget decides its own size; whether its leaves are fully drawn is read off the canvas.  One thing is
+        # not: Pile.render(()) does not pad its narrower fixed items to the Pile's width, the canvas is ragged then (what
+        # is drawn where is undefined once such a canvas is overlaid or joined); such a Pile does not count as fitting
+        return fixed_not_ragged(w, atomic)
     maxcol = size[0]
     if maxcol < 1 or (len(size) == 2 and size[1] < 1):
         return False
@@ -1377,6 +1469,7 @@ class C09(core.Check):
         "integer columns for move_cursor_to_coords ('left' / 'right' are not modelled); button-1 press events",
         "pack((maxcol,))[0] == maxcol for every modelled widget (Widget.pack default; Text-like widgets with their own pack are oracle-only)",
         "a widget rendered fixed 'fits' only when its width type is 'pack' (Padding / Overlay) resp. every fixed item fits the width / column it gets; Padding with a given or relative width rendered at size () is excluded (render works, the three other methods raise ValueError: reported)",
+        "a Pile rendered with size () 'fits' only when all its fixed items are as wide as the Pile: Pile.render(()) does not pad narrower items, the canvas is ragged and, overlaid or joined, is drawn at positions no method computes (reported, corpus/C09/repro_pile_ragged.py); such cases get no correspondence (encode returns None) and are never judged by the oracle",
         "leaf contract: a leaf's get_cursor_coords equals the cursor of its own focused rendering; a cursor implies selectable + cursor API",
         "the bottom widget of an Overlay is background: it never receives mouse events (by design of Overlay.mouse_event)",
         "mouse events and cursor moves follow a rendering at the same size; additionally get_cursor_coords and sample presses are sent to a never-rendered tree and to a tree last rendered at another width, and after a focus-moving press get_cursor_coords is compared with the next focused rendering with the canvas cache in use",
@@ -1390,6 +1483,10 @@ class C09(core.Check):
     def encode(self, case):
         if has_real(case["tree"]):
             return None                      # real Edit / Button / GridFlow / ListBox: judged by the oracle only
+        if needs_extended(case):
+            subj = Subject(case)
+            if ragged_fixed_pile(subj.w, subj.size):
+                return None                  # a ragged canvas (see ragged_fixed_pile): outside the model
         size = case["size"]
         # model 0: the proved model of Geometry.v (cross-checked against the extended one); 1: extended model only
         out = [1 if needs_extended(case) else 0,
